@@ -507,6 +507,11 @@ def project(events, run_index=0):
                ncalls=e["ncalls"], fc=e["fc"],
                loggedfinite=_logged_finite(e.get("final")),
                nlog=int(e["final"]["Xn"] + 1) if e.get("final") else -1)
+    # the loop_end hook must have fired in every run that reached the main loop
+    if any(e["ev"] == "Reserve" for e in events) and any(e["ev"] == "Result" for e in events) \
+            and not any(e["ev"] == "LoopEnd" for e in events):
+        from .common import MachineryError
+        raise MachineryError("no LoopEnd events: the loop_end hook did not fire (PYBADS_VERIF guard off?)")
     # final log consistency guards (C01 internal box / maps back, C12 run level)
     if final is not None:
         ev("FinalLog", **_final_guards(final, lb, ub, lbI, ubI, events, mode))
